@@ -598,3 +598,105 @@ var sizeDepAccepted = map[string]string{
 	"mp4.SencBox.readBoxSize":  "Size() of a decoded senc is the size read (the box is kept raw until ParseReadBox); tabled irregular for W-SE, mutation after decoding is outside the properties",
 	"mp4.UnknownBox.size":      "an unknown box is name + size + raw payload by construction; the 64-bit header case is a listed known finding of W-SE",
 }
+
+// ---- S-COND: the two hand-written encoders of a type branch on the same field tests ------------------------
+
+// condSignatures: for every branch of f on a comparison between a struct field and a constant, "Owner.Field class
+// const" where class identifies the comparison up to negation (== / !=, < / >=, <= / >).
+func condSignatures(f *ssa.Function) map[string]int {
+	out := map[string]int{}
+	for _, b := range f.Blocks {
+		if len(b.Instrs) == 0 {
+			continue
+		}
+		ifi, ok := b.Instrs[len(b.Instrs)-1].(*ssa.If)
+		if !ok {
+			continue
+		}
+		bo, ok := ifi.Cond.(*ssa.BinOp)
+		if !ok {
+			// a bool field tested directly (possibly negated)
+			v := ifi.Cond
+			if u, isNot := v.(*ssa.UnOp); isNot && u.Op == token.NOT {
+				v = u.X
+			}
+			if owner, fld := valueOwnerField(v, 0); fld != "" {
+				out[fmt.Sprintf("%s.%s bool", owner, fld)]++
+			}
+			continue
+		}
+		x, y, op := bo.X, bo.Y, bo.Op
+		if _, isC := x.(*ssa.Const); isC {
+			x, y = y, x
+			op = map[token.Token]token.Token{token.EQL: token.EQL, token.NEQ: token.NEQ, token.LSS: token.GTR, token.GTR: token.LSS, token.LEQ: token.GEQ, token.GEQ: token.LEQ}[op]
+		}
+		cv, isC := y.(*ssa.Const)
+		if !isC || cv.Value == nil {
+			continue
+		}
+		owner, fld := valueOwnerField(x, 0)
+		if fld == "" {
+			continue
+		}
+		class := map[token.Token]string{token.EQL: "==", token.NEQ: "==", token.LSS: "<", token.GEQ: "<", token.LEQ: "<=", token.GTR: "<="}[op]
+		if class == "" {
+			continue
+		}
+		out[fmt.Sprintf("%s.%s %s %s", owner, fld, class, cv.Value.ExactString())]++
+	}
+	return out
+}
+
+// ruleEncoderConditions (S-COND): where a type has a hand-written Encode(io.Writer) beside EncodeSW (not the
+// wrapper shape T-WRAP checks), both branch on the same tests of struct fields against constants (up to negation).
+// One of them testing `x <= 0` where the other tests `x == 0` accepts or rejects a structure the other does not.
+func ruleEncoderConditions(c *Ctx, r *Report) int {
+	prog := c.SSA()
+	n := 0
+	for _, enc := range encodeNonWrappers(c) {
+		fe := prog.FuncValue(enc)
+		if fe == nil || fe.Signature.Recv() == nil {
+			continue
+		}
+		var fs *ssa.Function
+		tn := typeName(fe.Signature.Recv().Type())
+		for _, g := range c.RepoFuncs(IsLib) {
+			if g.Name() == "EncodeSW" && g.Signature.Recv() != nil && typeName(g.Signature.Recv().Type()) == tn && g.Pkg == fe.Pkg {
+				fs = g
+			}
+		}
+		if fs == nil {
+			continue
+		}
+		n++
+		key := fe.Pkg.Pkg.Name() + "." + tn + ":Encode~EncodeSW"
+		a, b := condSignatures(fe), condSignatures(fs)
+		var diff []string
+		for k := range a {
+			if b[k] == 0 {
+				diff = append(diff, "only Encode tests "+k)
+			}
+		}
+		for k := range b {
+			if a[k] == 0 {
+				diff = append(diff, "only EncodeSW tests "+k)
+			}
+		}
+		sort.Strings(diff)
+		if len(diff) > 0 {
+			r.Bad("S-COND", key, c.Pos(fe.Pos()), "the two encoders branch on different field tests: "+strings.Join(diff, "; "))
+		} else {
+			r.OK("S-COND", key, c.Pos(fe.Pos()), fmt.Sprintf("both encoders branch on the same %d field-against-constant tests", len(a)))
+		}
+	}
+	return n
+}
+
+func init() {
+	Registry["WSCOND"] = func(c *Ctx, r *Report) {
+		fmt.Println("pairs", ruleEncoderConditions(c, r))
+		for _, o := range r.Obls {
+			fmt.Println(o.Status, o.Key, o.Detail)
+		}
+	}
+}
